@@ -10,7 +10,7 @@ RULE = (
     "case = history of 3-10 steps over 1-3 stores (classes local/base; algorithms md5, md5-dos2unix, sha256, blake3); step "
     "alphabet: stage+transfer of a generated directory or file, upload staging, direct add under hash_file's digest, "
     "store->store transfer of a random subset (shallow/expanded), index md5+save, migrate(prepare()) to another algorithm, gc with "
-    "a random used set, object checkout out of a store.  The auditor (independent re-hash of every object file, hand-assembled "
+    "a random used set, object checkout out of a store, re-run of a migration, verifying add/transfer of content that does not match its name (wrong oid, rotten source store).  The auditor (independent re-hash of every object file, hand-assembled "
     "canonical listing, mode bits for local stores) runs after every step and after every HashFileDB.add call.  "
     "non-trivial = history touching >= 2 distinct operations; distinct = (history of operations with their inputs)"
 )
@@ -21,7 +21,7 @@ ASSUMPTIONS = [
 ]
 MONITORS = "store auditor after every step and inside a post-hook on HashFileDB.add (audits the receiving store after every add call)"
 REQUIRED_COUNTERS = ["inode_only_swaps", "persistent_workspace_steps", "dirs_with_several_large_files", "steps", "audits_after_step", "audits_after_add", "objects_rehashed", "dir_objects_reencoded", "op/stage-dir", "op/stage-file",
-                     "op/upload-stage", "op/add", "op/transfer", "op/save", "op/migrate", "op/gc", "op/checkout", "op/pws-stage", "op/pws-edit", "op/pws-stage-only", "local_mode_checks"]
+                     "op/upload-stage", "op/add", "op/transfer", "op/save", "op/migrate", "op/gc", "op/checkout", "op/verify-rotten", "migrations_rerun", "op/pws-stage", "op/pws-edit", "op/pws-stage-only", "local_mode_checks"]
 
 
 def run_shard(ctx):
@@ -132,7 +132,7 @@ def run_shard(ctx):
                 for _step in range(nsteps):
                     st = rng.choice(stores)
                     odb, algo = st["odb"], st["algo"]
-                    op = rng.choice(["stage-dir", "stage-dir", "stage-file", "upload-stage", "add", "transfer", "save", "migrate", "gc", "checkout",
+                    op = rng.choice(["stage-dir", "stage-dir", "stage-file", "upload-stage", "add", "transfer", "save", "migrate", "gc", "checkout", "verify-rotten",
                                      "pws-stage-only", "pws-edit", "pws-stage"])
                     if op.startswith("pws") and algo not in ("md5", "md5-dos2unix"):
                         op = "stage-file"
@@ -231,6 +231,13 @@ def run_shard(ctx):
                             dst = rng.choice(others)
                             n = migrate(prepare(odb, dst["odb"]))
                             rec += [dst["name"], dst["algo"], n]
+                            if rng.random() < 0.5:
+                                # the migration is run again in the same process (idempotent re-run, possibly after the source grew)
+                                if rng.random() < 0.5 and algo in ("md5", "md5-dos2unix"):
+                                    env.stage_and_transfer(odb, new_ws(single=rng.random() < 0.5), algo, shallow=False)
+                                n2 = migrate(prepare(odb, dst["odb"]))
+                                rec += ["rerun", n2]
+                                res.count("migrations_rerun")
                     elif op == "gc":
                         used = [env.HI(algo, o) for o in objs_of(st) if rng.random() < 0.7]
                         shallow = rng.random() < 0.5
@@ -239,6 +246,30 @@ def run_shard(ctx):
                         except FileNotFoundError:
                             n = "refused"
                         rec += [len(used), "shallow" if shallow else "expanded", n]
+                    elif op == "verify-rotten":
+                        # a verifying add / transfer is offered content that does not match the name it comes under (a rotten
+                        # source store outside the audited set, or a wrong oid): whatever it does, the receiving store stays sound
+                        p = new_ws(single=True)
+                        _m, hi = hash_file(p, fs, algo)
+                        wrong = rng.choice(["oid", "source-object"])
+                        if wrong == "oid":
+                            other = new_ws(single=True)
+                            if file_bytes(other) == file_bytes(p):
+                                with open(other, "ab") as f:
+                                    f.write(b"x")
+                            errs = []
+                            odb.add(other, fs, hi.value, verify=True, on_error=lambda o, e: errs.append(o))
+                            rec += ["wrong-oid", len(errs)]
+                        else:
+                            rot = os.path.join(d, f"rotten{_step}")
+                            rodb = env.odb_of_class("base", rot, hash_name=algo)
+                            rodb.add(p, fs, hi.value)
+                            rp = rodb.oid_to_path(hi.value)
+                            os.chmod(rp, 0o644)
+                            with open(rp, "ab") as f:
+                                f.write(b"bitrot")
+                            r = transfer(rodb, odb, {hi}, verify=True, shallow=rng.random() < 0.5)
+                            rec += ["rotten-source", len(r.failed)]
                     elif op == "checkout":
                         have = objs_of(st)
                         if have:
